@@ -6,15 +6,15 @@ hook_commits = [l.split()[0] for l in subprocess.check_output(
     ['git', '-C', '/repo', 'log', '--format=%h %s']).decode().splitlines() if 'verif hook' in l]
 
 P = {
- 'C01': ("stateful PBT (proptest histories vs dirty-set/wake-obligation oracle) + generated thread schedules (shuttle) ",
+ 'C01': ("stateful PBT (proptest histories vs dirty-set/wake-obligation oracle) + generated thread schedules on the real code (shuttle) + fuzzing/Miri in the thorough tier",
          "generated push/poll/wake/complete histories over all 13 subjects with a pool of 3 task wakers; after every Pending poll and every wake the oracle demands that a pushed/woken-but-unpolled child implies the task waker of the most recent poll was invoked since that poll began; the epilogue drives an honest executor to completion",
-         "single-threaded histories decide the history/configuration quantifier; thread interleavings are explored by the generated-schedule engine (E2) where registered; weak-memory reorderings are out of reach of this engine"),
+         "E1 decides the history/configuration quantifier single-threaded; E2 explores sequentially consistent interleavings of 1-3 waker threads against the poller with at most 6 children (scheduling points before every atomic/lock of the waker block, inside cordyceps and diatomic-waker); reorderings weaker than SC are only seen by Miri's emulation in the thorough tier (E4)"),
  'C02': ("stateful PBT: proptest histories vs multiset / exactly-once ledger model",
          "every token yielded must belong to an accepted, completed, not yet yielded child; Ready(None) iff the model is empty; Pending never when empty; the epilogue completes and wakes everything and requires every accepted child to come out",
          "exploration over generated histories up to ~370 children / 8 groups; no absence claim"),
- 'C03': ("stateful PBT: proptest histories vs ownership ledger of the shared waker block (probes H1) + generated thread schedules",
+ 'C03': ("stateful PBT: ownership ledger of the shared waker block (probes H1) + poisoned quarantine, over proptest histories, generated thread schedules (shuttle) and real threads under Miri",
          "block alloc/release and every waker-vtable entry are reported by add-only probes before anything is dereferenced; ledger rules: released exactly once, only with zero outstanding clones, never while its group is live, no vtable entry into a released block, nothing leaked at the end of the case; all death orders of collection and wakers are generated",
-         "single-threaded ledger here; races proper are the business of E2/E4 where registered"),
+         "ledger + write-after-free detection single-threaded (E1) and under generated SC schedules (E2); data races and ordering bugs proper only through Miri on generated real-thread scenarios (E4: 8 scheduler seeds quick, 48 thorough); a non-atomic read-modify-write inside waker_list.rs cannot be split by the add-only scheduling hook (found by Miri instead)"),
  'C04': ("stateful PBT: proptest histories vs VecDeque reference model with seeded position counters (hook H2)",
          "ordered collections are compared after every poll with a deque model under push_back/push_front; both position counters are seeded anywhere including next to 0, 2^63 and usize::MAX so wrap and re-base paths run; ordered adapters must yield in upstream order; join outputs must sit at their input index",
          "exploration; counters are seeded through a verification-only setter, trusted to be equivalent to 2^63 real pushes"),
@@ -88,7 +88,13 @@ m = {
  },
  "engines": [
    {"name": "E1-histories", "path": "/verif/harness", "serves_properties": sorted(P.keys()),
-    "kind_free_text": "proptest 1.11 TestRunner on 16 threads over generated (subject, configuration, operation list) cases; scripted futures/streams/wakers/allocator; reference models and ledgers evaluated after every step; shrinking to a JSON replay file"},
+    "kind_free_text": "proptest 1.11 TestRunner on 16 threads over generated (subject, configuration, operation list) cases; scripted futures/streams/wakers/allocator; reference models and ledgers evaluated after every step; shrinking to a JSON replay file; committed regression replays re-run first"},
+   {"name": "E2-schedules", "path": "/verif/sched", "serves_properties": ["C01", "C03"],
+    "kind_free_text": "proptest-generated scenarios (poller script + 1-3 waker-thread scripts + early drop) x seeded shuttle 0.9 schedules (random and PCT) on the real crate; cordyceps/diatomic-waker atomics become scheduling points through their loom cfgs and /verif/shim-loom, waker_list.rs through hook H1; every failing (scenario, schedule seed) pair replays exactly"},
+   {"name": "E3-fuzz", "path": "/verif/fuzz", "serves_properties": [p for p in sorted(P.keys()) if p != "C18"],
+    "kind_free_text": "cargo-fuzz/libFuzzer + ASan targets fz_collections, fz_merges, fz_adapters, fz_joins: bytes are decoded into the same op language and run through the same interpreter and oracles as E1 (thorough tiers only)"},
+   {"name": "E4-threads", "path": "/verif/threads", "serves_properties": ["C01", "C03"],
+    "kind_free_text": "seed-generated waker-traffic scenarios on real std threads, natively and under Miri with many scheduler seeds (data races, use-after-free, leaks, weak-memory emulation). ThreadSanitizer is deliberately not an oracle: it does not model the acquire fence of the release path and reports a false race on the unchanged tree"},
  ],
  "checks": checks,
  "not_applicable": [],
